@@ -58,7 +58,8 @@ class C13(C12):
                 forward = any(set(re.findall(r"[.A-Za-z_][.A-Za-z_0-9]*", l.split(None, 1)[1] if " " in l else "")) & later for l in chunks[0] if not l.endswith(":"))
                 if not forward:
                     _, whole, _, _ = asmgen.run_assembler([text], pie, undef)
-                    if whole != out:
+                    # both refused: which of several errors is reported first depends on how far the text was read
+                    if whole != out and not (whole.startswith("err") and out.startswith("err")):
                         bads.append(dict(what=f"chunked: {out[:300]} || whole: {whole[:300]}", input={"chunks": chunks, "pie": pie, "allow_undef": undef},
                                          finding=self.classify_chunks(chunks, out, pie, undef)))
             # (3) the same text twice with different suffixes: no clash, no capture
